@@ -551,7 +551,7 @@ def compdb_link(rule, build_inputs, buildfile, env):
                        else rule.output[0:linker.num_outputs])
     buildfile.append(
         arguments=linker(in_files, output, **cmd_kwargs),
-        file=file, output=first(rule.public_output)
+        file=file, output=first(rule.output)
     )
 
 
